@@ -577,6 +577,8 @@ def run_colors(ctx, res, n):
         specs = []
         for _ in range(rng.randint(1, 3)):
             col = "".join(rng.choice(COLOR_SYMS) for _ in range(rng.randint(0, 6)))
+            if k % 4 == 0:                      # audit w7: every 4th colour holds both quote kinds (the &quot; branch of quoteattr)
+                col = col[:2] + '"' + col[2:4] + "'" + col[4:]
             st = (rng.random() < 0.5, rng.random() < 0.2, False, col)
             line = G.rand_line(rng, adversarial=0.6)
             sp = [("s", True) + st, ("t", line), ("s", False) + st]
@@ -783,6 +785,41 @@ def run_layout_groups(ctx, res, nrand):
             lcaps.append([rand_group(rng, lid, rng.choice(JUNCTIONS) if rng.random() < 0.6 else None) for lid in lids])
         sets.append(lcaps)
     d = res["distribution"]
+    # audit w7: IRREGULAR layout shapes (a layout-0 text node between two layouts, a style END node carrying the next group's
+    # layout, a layout-0 style node): what a group is there is the writer's own business - only the LITERAL model tie (305) and
+    # the acceptance by the cue grammar are judged, no per-group oracle
+    it = ("s", True, True, False, False, None)
+    irregular = [[(1, ("t", "a")), (0, ("t", "b")), (2, ("t", "c"))],
+                 [(1, ("t", "up --")), (0, ("t", "> down")), (2, ("b",)), (2, ("t", "c"))],
+                 [(1, it), (1, ("t", "a")), (2, ("s", False) + it[2:]), (2, ("t", "b"))],
+                 [(1, ("t", "a")), (0, it), (2, ("t", "b --")), (2, ("t", ">")), (0, ("s", False) + it[2:])],
+                 [(0, ("t", "x")), (1, ("t", "y")), (0, ("b",)), (0, ("t", "z")), (2, it), (2, ("t", "w")), (1, ("s", False) + it[2:])]]
+    for _ in range(40):
+        flat = []
+        for _k in range(rng.randint(2, 6)):
+            lid = rng.choice([0, 0, 1, 2, 3])
+            flat.append((lid, rng.choice([("t", rng.choice(["a", "x -", "->", "--", ">", "q & r"])), ("b",), it, ("s", False) + it[2:]])))
+        if any(n[0] == "t" for _, n in flat) and flat[0][1][0] != "b":
+            irregular.append(flat)
+    for flat in irregular:
+        lc_ = [[flat]]
+        out = groups_doc(lc_)
+        caps = [[G.vtt_timing(*G.times(0)), [[lid, G.wire_nodes([n])[0]] for lid, n in flat]]]
+        model = oracle_batch([(305, [list(GROUP_SETTINGS), caps])])[0]
+        res["evaluations"] += 1
+        d["F_irregular_layout_shapes"] = d.get("F_irregular_layout_shapes", 0) + 1
+        if not isinstance(out, Ok) or not (isinstance(model, list) and len(model) == 2):
+            d["F_irregular_no_document"] = d.get("F_irregular_no_document", 0) + 1
+            continue
+        same = model[0] == out.v
+        d["F_irregular_model_exact_equal" if same else "F_irregular_model_exact_differs"] = \
+            d.get("F_irregular_model_exact_equal" if same else "F_irregular_model_exact_differs", 0) + 1
+        if not same and len(res["disagreements"]) < 50:
+            res["disagreements"].append({"fmt": "WebVTT", "what": "writer output (irregular layout shapes) differs literally from the model's",
+                                         "nodes": lc_, "impl": out.v, "model": model[0]})
+        if oracle_batch([(311, out.v)])[0] == []:
+            res["violations"].append({"fmt": "WebVTT", "kind": "unparseable-output", "shape": "layout-groups-irregular", "replay": "vtt-layout-groups",
+                                      "input": lc_, "document": out.v, "what": "WebVTT output rejected by the reference grammar"})
     for lcaps in sets:
         out = groups_doc(lcaps)
         v, model = judge_groups(lcaps, out)
@@ -796,6 +833,11 @@ def run_layout_groups(ctx, res, nrand):
                 res["nontrivial"].add(("WebVTT-group", tuple(n[1] for _, n in g if n[0] == "t"), len(groups)))
         if v is not None:
             res["violations"].append(v)
+        if isinstance(out, Ok) and not (isinstance(model, list) and len(model) == 2):
+            d["F_model_request_bad"] = d.get("F_model_request_bad", 0) + 1         # audit w7: never skip the literal tie silently
+            if len(res["disagreements"]) < 50:
+                res["disagreements"].append({"fmt": "WebVTT", "what": "request 305 (model document) gave no answer for this input",
+                                             "nodes": lcaps, "impl": out.v, "model": model})
         if isinstance(out, Ok) and isinstance(model, list) and len(model) == 2:
             exact = model[0] == out.v
             key = "F_model_exact_equal" if exact else "F_model_exact_differs"
